@@ -3,6 +3,7 @@ package main
 import (
 	"context"
 	"fmt"
+	"math/big"
 	"reflect"
 	"strings"
 	"time"
@@ -170,6 +171,46 @@ func genC13(out *Out, r *Rng, tier string, n int, shard int) {
 		}
 		// single entries on their own
 		var w3 []string
+		// entries made through the options, with every kind of value an entry takes
+		if pk, err := mz.Options().NewPath("urn:ex:made", 3, "urn:ex:by-hand"); err == nil {
+			for _, v := range []any{int64(-5), int64(7), int(9), "text", "", true, false, big.NewInt(-12345), new(big.Int).Lsh(big.NewInt(1), 70), time.Date(1931, 5, 6, 7, 8, 9, 1, time.FixedZone("", 19800)), time.Unix(0, 0).UTC()} {
+				em, err := mz.Options().NewRDFEntry(pk, v)
+				if err != nil {
+					if s, isStr := v.(string); !(isStr && s == "") {
+						w3 = append(w3, fmt.Sprintf("NewRDFEntry refuses a %T value: %v", v, err))
+					}
+					continue
+				}
+				b, err := em.MarshalBinary()
+				if err != nil {
+					w3 = append(w3, fmt.Sprintf("hand-made entry with a %T value: MarshalBinary fails: %v", v, err))
+					continue
+				}
+				p0, _ := mz.Options().NewPath("x")
+				e2, _ := mz.Options().NewRDFEntry(p0, "y")
+				if err := e2.UnmarshalBinary(b); err != nil {
+					w3 = append(w3, fmt.Sprintf("hand-made entry with a %T value: UnmarshalBinary fails: %v", v, err))
+					continue
+				}
+				k1, v1, err1 := em.KeyValueMtEntries()
+				k2, v2, err2 := e2.KeyValueMtEntries()
+				if (err1 == nil) != (err2 == nil) || (err1 == nil && (k1.Cmp(k2) != 0 || v1.Cmp(v2) != 0)) {
+					w3 = append(w3, fmt.Sprintf("hand-made entry with a %T value %v hashes differently after its own round trip (%v/%v vs %v/%v)", v, v, k1, v1, k2, v2))
+				}
+			}
+			// an entry needs a key; a value of a kind entries do not take is refused
+			if _, err := mz.Options().NewRDFEntry(merklize.Path{}, "v"); err == nil {
+				w3 = append(w3, "NewRDFEntry accepts an empty key")
+			}
+			if _, err := mz.Options().NewRDFEntry(pk, 1.5); err == nil {
+				w3 = append(w3, "NewRDFEntry accepts a float64 value")
+			}
+			if pe, err := merklize.NewRDFEntry(pk, int64(5)); err != nil {
+				w3 = append(w3, "merklize.NewRDFEntry fails: "+err.Error())
+			} else if vh, err := pe.ValueMtEntry(); err != nil || vh.Int64() != 5 {
+				w3 = append(w3, fmt.Sprintf("merklize.NewRDFEntry(int64 5) encodes as %v (%v)", vh, err))
+			}
+		}
 		ne := 0
 		for _, e := range run.Entries {
 			e := e
